@@ -141,6 +141,16 @@ class TConst(Type):
 TNone = TConst(None)
 
 
+class TClass(Type):
+    """the class object itself (cls parameter of classmethods)"""
+
+    def __init__(self, qualname):
+        self.qualname = qualname
+
+    def fresh(self, ctx, name):
+        return ctx.classref(self.qualname)
+
+
 class TTuple(Type):
     def __init__(self, *elts):
         self.elts = elts
